@@ -21,7 +21,8 @@ package safedetails
 //@   ensures[C03] safeSeq(result)
 
 //@ func WithSafeDetails
-//@   props C10 C07
+//@   props C10 C07 C12
+//@   ensures[C12] (err != nil && !(len(format) == 0 && len(args) == 0)) ==> result.(*withSafeDetails).safeDetails[0] == strip(redactOf(rSprintf(format, args)))
 //@   ensures err == nil ==> result == nil
 //@   ensures (err != nil && len(format) == 0 && len(args) == 0) ==> result == err
 //@   ensures (err != nil && !(len(format) == 0 && len(args) == 0)) ==> typeis(result, *withSafeDetails) && result.(*withSafeDetails).cause == err && len(result.(*withSafeDetails).safeDetails) == 1
